@@ -420,3 +420,19 @@ mod tests {
         assert_eq!(DROPS.load(Ordering::Relaxed), COUNT * THREADS);
     }
 }
+
+#[cfg(circ_verif)]
+impl Collector {
+    /// The raw global epoch word (`epoch << 1`), read without passing a yield point.
+    pub fn verif_epoch(&self) -> usize {
+        self.global.verif_epoch()
+    }
+}
+
+#[cfg(circ_verif)]
+impl LocalHandle {
+    /// `(announced epoch << 1 | pinned, guard count, handle count)`, read without yielding.
+    pub fn verif_state(&self) -> (usize, usize, usize) {
+        unsafe { (*self.local).verif_state() }
+    }
+}
